@@ -152,7 +152,7 @@ func buildC09TS(e *engine, p *rt.Package) {
 					_ = resp.Body.Close()
 					cr, cerr := drv.Call(map[string]any{"op": "ts_server_calls", "sid": sid})
 					if cerr != nil || !cr.OK() {
-						panic(fmt.Sprint("node driver: ", cerr, cr))
+						panic(infraError(fmt.Sprint(fmt.Sprint("node driver: ", cerr, cr))))
 					}
 					calls, _ := cr["calls"].([]any)
 					var decl []string
